@@ -18,6 +18,7 @@ Correspondence: the harness's rewritten grid / row stream vs the Lean rewrite fu
 well-formedness predicates wf / wfT / blockShaped and "the splitter delivers the grid as one block"), and the
 reader on the rewritten input vs Lean makeTable / parseBlocks.
 """
+import datetime
 import io
 import os
 import pathlib
@@ -66,8 +67,13 @@ EXTRA = {
 
 BLANKS = ["", "", " ", "  ", "\t", " \t", " ", "  "]
 # decomposed sequences (e + combining acute, a + combining ring, Hangul jamo): names must come back as written
-NAME_ALPHA = rc.NAME_ALPHA + [":", "*", "é", "k", "e\u0301", "a\u030a", "\u1100\u1161"]
-LINEISH_ALPHA = ["a", "b", "x", "1", " ", "-", "é", "\x0b", "\x0c", "\x1c", "\x1d", "\x1e", "\x85", "\u2028", "\u2029"]
+NAME_ALPHA = rc.NAME_ALPHA + [":", "*", "é", "k", "e\u0301", "a\u030a", "\u1100\u1161", "\ufeff", "\u200b", "\u2060",
+                              "\u00ad", "\U0001F600"]
+# text-cell alphabet: characters str.splitlines() breaks at, zero-width / format characters (BOM U+FEFF, ZWSP, WORD
+# JOINER, SOFT HYPHEN) at the start / inside / end of values, astral characters
+LINEISH_ALPHA = ["a", "b", "x", "1", " ", "-", "é", "\x0b", "\x0c", "\x1c", "\x1d", "\x1e", "\x85", "\u2028", "\u2029",
+                 "\ufeff", "\ufeff", "\u200b", "\u2060", "\u00ad", "\U0001F600", "\U0001D538", "\U00020000"]
+LADDER = [1025, 4097, 8193, 2049, 16385, 255, 1023, 8191, 64, 128, 4095, 20000, 257, 1000, 2047]
 COMMENTS = ["comment", "more", "**x", "", " ", "k:", "1.5", ":::t", "-"]
 
 
@@ -111,11 +117,13 @@ def block_shaped(grid):
 
 # ---------------------------------------------------------------------------------------------- table values
 
-def gen_tv(rng, native, illformed=None, zero_cols=False):
+def gen_tv(rng, native, illformed=None, zero_cols=False, n_rows=None):
     n_col = rng.choice([1, 1, 2, 3, 4])
     n_row = rng.choice([0, 1, 2, 3, 5])
     if zero_cols:
         n_col, n_row = 0, 0
+    if n_rows is not None:
+        n_col, n_row = rng.choice([1, 2]), n_rows           # size ladder: long tables, few columns
     kinds = [rng.choice(["text", "onoff", "datetime", "num", "num"]) for _ in range(n_col)]
     names = []
     while len(names) < n_col:
@@ -199,6 +207,44 @@ def layout_t(t):
 def tv_json(t):
     return {"name": t["name"], "dest": common.cell_to_json(t["dest"]), "nrows": t["nrows"],
             "cols": [{"name": c["name"], "unit": c["unit"], "cells": grid_to_json([c["cells"]])[0]} for c in t["cols"]]}
+
+
+def cell_from_json(c):
+    if isinstance(c, dict):
+        if "i" in c:
+            return int(c["i"])
+        if "f" in c:
+            return float(c["f"])
+        if "d" in c:
+            return datetime.datetime.fromisoformat(c["d"])
+        return str(c.get("o"))
+    return c
+
+
+def rows_from_json(rows):
+    return [[cell_from_json(c) for c in r] for r in rows]
+
+
+def tv_from_json(j):
+    return {"name": j["name"], "dest": cell_from_json(j["dest"]), "nrows": j["nrows"],
+            "cols": [{"name": c["name"], "unit": c["unit"], "cells": [cell_from_json(x) for x in c["cells"]]}
+                     for c in j["cols"]]}
+
+
+def step_from_json(st):
+    st = dict(st)
+    if st["k"] == "pad_trailing":
+        st["pads"] = rows_from_json(st["pads"])
+    if st["k"] == "comments":
+        st["blank"] = cell_from_json(st["blank"])
+        st["cells"] = [cell_from_json(c) for c in st["cells"]]
+    return st
+
+
+def end_from_json(e):
+    if e["by"] == "eof":
+        return dict(e)
+    return {"by": e["by"], "row": [cell_from_json(c) for c in e["row"]], "rest": rows_from_json(e["rest"])}
 
 
 # ---------------------------------------------------------------------------------------------- rewrites (Python)
@@ -432,29 +478,32 @@ def same_table(a, b):
 # ---------------------------------------------------------------------------------------------- run
 
 def one_case(rng, out, seed, idx, ops, pend, model_ok, tmp=None):
+    """draw one case; the evaluation is a function of the case alone (so that a replay file replays exactly)"""
     mode = rng.choice(["make_table", "parse_blocks", "read_csv", "read_csv"])
+    # size ladder: long tables (transposed lines of many thousand characters) through read_csv
+    ladder = LADDER[(idx // 500) % len(LADDER)] if idx % 500 == 11 else None
+    if ladder:
+        mode = "read_csv"
     route = None
     if mode == "read_csv":
         kind = rng.choice(["stream", "stream", "str", "path"])
-        route = {"kind": kind, "eol": "\n" if kind == "stream" else rng.choice(["\n", "\r\n", "\r\n", "\r"]),
-                 "tmp": tmp}
-        if tmp is None:
-            route = {"kind": "stream", "eol": "\n", "tmp": None}
+        route = [kind, "\n" if kind == "stream" else rng.choice(["\n", "\r\n", "\r\n", "\r"])]
     native = mode != "read_csv" and rng.random() < 0.5
     ill = rng.choice(["blank_row", "star_name", "untrimmed", "blank_name", "ragged", "no_cols"]) \
-        if rng.random() < 0.08 else None
-    zero = ill is None and rng.random() < 0.06
-    t = gen_tv(rng, native, ill, zero_cols=zero)
+        if rng.random() < 0.08 and not ladder else None
+    zero = ill is None and not ladder and rng.random() < 0.06
+    t = gen_tv(rng, native, ill, zero_cols=zero, n_rows=ladder)
     lay, start, steps = draw_rewrites(rng, t, mode)
+    if ladder and rng.random() < 0.7 and lay == "R":
+        lay, start = "T", "T"
+        steps = [st for st in steps if st["k"] in ("pad_trailing",)]
     pre, end = ([], {"by": "eof"}) if mode == "make_table" else draw_end(rng, mode)
     sep = None
-    plain = layout_r(t)
-    g = layout_r(t) if start == "R" else layout_t(t)
-    for st in steps:
-        g = apply_step(g, st)
-    stream = stream_of(pre, g, end)
     if mode == "read_csv":
-        cells = [c for r in stream + plain for c in r]
+        g = layout_r(t) if start == "R" else layout_t(t)
+        for st in steps:
+            g = apply_step(g, st)
+        cells = [c for r in stream_of(pre, g, end) + layout_r(t) for c in r]
         if any(not isinstance(c, str) for c in cells):
             return
         free = [s for s in [";", ",", "|", "\t", "~"] if not any(s in c for c in cells)]
@@ -462,11 +511,32 @@ def one_case(rng, out, seed, idx, ops, pend, model_ok, tmp=None):
             out.count("skipped:no_free_separator")
             return
         sep = rng.choice(free)
-    if route is not None:
+    case = {"seed": seed, "index": idx, "mode": mode, "sep": sep, "table": tv_json(t), "layout": lay, "start": start,
+            "source": route, "steps": [step_json(s) for s in steps], "pre": grid_to_json(pre), "end": end_json(end),
+            "ill": ill, "zero": zero, "ladder": ladder}
+    eval_case(case, out, ops, pend, model_ok, tmp)
+
+
+def eval_case(case, out, ops, pend, model_ok, tmp):
+    mode, sep, lay = case["mode"], case.get("sep"), case["layout"]
+    start = case.get("start") or ("R" if any(s["k"] == "transpose" for s in case["steps"]) else lay)
+    t = tv_from_json(case["table"])
+    steps = [step_from_json(s) for s in case["steps"]]
+    pre, end = rows_from_json(case["pre"]), end_from_json(case["end"])
+    ill, zero = case.get("ill"), case.get("zero")
+    route = None
+    if case.get("source"):
+        route = {"kind": case["source"][0] if tmp is not None else "stream", "eol": case["source"][1], "tmp": tmp}
+        if route["kind"] == "stream":
+            route["eol"] = "\n"
         out.count("csv_source:" + route["kind"] + ":" + {"\n": "LF", "\r\n": "CRLF", "\r": "CR"}[route["eol"]])
-    case = {"seed": seed, "index": idx, "mode": mode, "sep": sep, "table": tv_json(t), "layout": lay,
-            "source": None if route is None else [route["kind"], route["eol"]],
-            "steps": [step_json(s) for s in steps], "pre": grid_to_json(pre), "end": end_json(end)}
+    if case.get("ladder"):
+        out.count("ladder_rows:%d" % case["ladder"])
+    plain = layout_r(t)
+    g = layout_r(t) if start == "R" else layout_t(t)
+    for st in steps:
+        g = apply_step(g, st)
+    stream = stream_of(pre, g, end)
     is_wf, is_wft, is_wf0 = wf(t), wf_t(t), wf0(t)
     shaped = block_shaped(g)
     out.count("mode:" + mode)
@@ -604,12 +674,17 @@ def run(tier, seed, model_ok, translator, search=False, _limit=None):
 
 
 def replay(rep):
+    """re-evaluates exactly the input of the replay file (table value, layout, rewrite steps, surrounding rows, ending,
+    mode, separator, source route) — independent of tier, seed and position in any stream"""
     inp = rep.get("input") or {}
-    if "index" not in inp:
+    if "table" not in inp or "steps" not in inp:
         return False, "replay file has no input (no-failing-input-found): " + str(rep.get("broken"))[:300]
-    seed = int(rep.get("seed", inp.get("seed", 0)))
-    o = run("thorough", seed, model_ok=False, translator=None, _limit=int(inp["index"]) + 1)
-    hit = [f for f in o.failures if f["input"].get("index") == inp["index"]]
-    if hit:
-        return False, hit[0]["what"]
+    out = Outcome()
+    tmp = tempfile.mkdtemp(prefix="c10r-")
+    try:
+        eval_case(dict(inp), out, [], [], False, tmp)
+    finally:
+        shutil.rmtree(tmp, ignore_errors=True)
+    if out.failures:
+        return False, out.failures[0]["what"]
     return True, "property holds on this input"
